@@ -1820,3 +1820,23 @@ M("rc2", "fire", ["C03", "C05"], "0.3 rpm manifest reader stops at the src arch 
                 for srpm_nevra, rpms in payload[variant][arch].items():''', '''                if arch == "src":
                     break
                 for srpm_nevra, rpms in payload[variant][arch].items():'''))
+M("sc1", "fire", ["C01"], "composeinfo BaseProduct.serialize no longer creates its section (KeyError for every layered compose)",
+  (CI, '''        self.validate()
+        data[self._section] = {}
+        data[self._section]["name"] = self.name
+        data[self._section]["version"] = self.version
+        data[self._section]["short"] = self.short
+        data[self._section]["type"] = self.type
+
+    def deserialize(self, data):''', '''        self.validate()
+        data[self._section]["name"] = self.name
+        data[self._section]["version"] = self.version
+        data[self._section]["short"] = self.short
+        data[self._section]["type"] = self.type
+
+    def deserialize(self, data):'''))
+M("sc2", "fire", ["C04"], "treeinfo Tree.serialize no longer creates its section (NoSectionError for every tree)",
+  (TI, '''        self.validate()
+        parser.add_section(self._section)
+        parser.set(self._section, "arch", self.arch)''', '''        self.validate()
+        parser.set(self._section, "arch", self.arch)'''))
